@@ -1,0 +1,21 @@
+//go:build verif
+
+package filemode
+
+// Contracts for the gvc verifier (/verif). Comment-only; never compiled into
+// a normal build.
+
+// FromBytes against git's get_mode (tree-walk.c), which Tree.Decode relies on
+// (property C04: a tree decodes to the entries git ls-tree lists, zero-padded
+// modes included): a mode field is accepted exactly when it is non-empty and
+// all octal digits, however long it is, and every digit shifts the value so
+// far by three bits in 32-bit unsigned arithmetic and adds itself.
+//gvc:func FromBytes
+//gvc:  props C04
+//gvc:  theory bv
+//gvc:  results m err
+//gvc:  loop 1 invariant digits: forall(k, 0, it1, b[k] >= '0' && b[k] <= '7')
+//gvc:  loop 1 step fold: mode == ((head(mode) << 3) + (c - '0')) & 0xffffffff
+//gvc:  ensures accept: (err == nil) == (len(b) > 0 && forall(k, 0, len(b), b[k] >= '0' && b[k] <= '7'))
+//gvc:  ensures refuse: err != nil ==> m == 0
+//gvc:end
